@@ -47,7 +47,46 @@ def proto_refs(e):
     return out
 
 
+def wasm_client(ctx):
+    """thorough tier only (config X = the examples crate): the wasm client's decode-and-verify wrapper propagates
+    every failure — digest parsing, protobuf parsing, message conversion — and contains no unwrap/expect/index"""
+    from analysis import extract
+    from analysis.mir import Program
+    try:
+        files, info = extract.facts_for('X', repo=ctx.repo)
+    except extract.ExtractError as e:
+        ctx.ob('C19.WASM.build', 'ANCHOR', False, 'examples', None, 'examples crate does not build for fact extraction: %s' % str(e)[-300:])
+        return
+    xp = Program(files)
+    ctx.progs['X'] = xp
+    ctx.infos['X'] = info
+    fs = [b for p, b in xp.bodies.items() if p.endswith('wasm_client::fallible_lookup_verify')]
+    if len(fs) != 1:
+        ctx.ob('C19.WASM.anchor', 'ANCHOR', False, 'examples::wasm_client', None, 'fallible_lookup_verify not found (%d)' % len(fs))
+        return
+    b = fs[0]
+    for oid, callee, desc in (('C19.WASM.digest', 'try_parse_digest', 'root hash bytes are parsed with try_parse_digest and a wrong size is an error'),
+                              ('C19.WASM.parse', 'parse_from_bytes', 'protobuf parsing failure is an error')):
+        require_call(ctx, b, oid, 'RF-BIND', callee, None, desc)
+    # the conversion `(&proto_proof).try_into()?` is a transparent call in the reconstructed expressions: its `?` shows as a
+    # second failing Try::branch on the (already unwrapped) parse result
+    conv = [g for g in b.guards() if g['fail'] and g['cond'][0] == 'discr' and
+            any(x[0] == 'try' and has_call(x[1], 'parse_from_bytes') for x in walk(g['cond']))]
+    okc = bool(conv) and not (b.exits((0, 0), avoid_blocks=[g['block'] for g in conv]) - {'Err', 'Diverge'})
+    ctx.ob('C19.WASM.convert', 'RF-BIND', okc, b.path, '%s:%s' % (b.file, conv[0]['line'] if conv else b.line),
+           'message-to-proof conversion failure is an error (checked with `?` on every path)' if okc else
+           'the conversion of the parsed message into a proof is not checked with `?` on every path', key='RF-BIND|C19.WASM.convert')
+    panicky = [(short(t.get('res') or t.get('fn')) or '') for pos, t in b.call_sites()
+               if (short(t.get('res') or t.get('fn')) or '').split('::')[-1] in ('unwrap', 'expect', 'index', 'unwrap_unchecked')]
+    tail = [c for c in checked_calls(b, 'lookup_verify') if c['how'].startswith('tail')] or checked_calls(b, 'lookup_verify')
+    ctx.ob('C19.WASM.no_panic', 'RF-PANIC', not panicky and bool(tail), b.path, '%s:%s' % (b.file, b.line),
+           'no unwrap / expect / indexing in the wasm decode wrapper; the verifier\'s Result is returned' if not panicky and tail else
+           'wasm decode wrapper can panic or drops the verifier result: %s' % panicky)
+
+
 def run(ctx):
+    if ctx.tier == 'thorough' and 'X' not in ctx.progs and getattr(ctx, 'repo', None):
+        wasm_client(ctx)
     prog = ctx.prog
     for t in TYPES:
         enc = prog.one(P + '<%s as From>::from' % t)
